@@ -43,6 +43,8 @@ THEOREMS = [
     "Verif.C13.fit_row_unfold",
     "Verif.C13.shared_parameter_chain_rule",
     "Verif.C13.F9_witness",
+    "Verif.C13.cardano_chain_eq_implicit_partial",
+    "Verif.C13.cubic_jac_eq_implicit_cardano",
 ]
 for _ns, _vars in (("OF", "Lp Lc St kT d"), ("WD", "Lp Lc kT f"), ("EF", "Lp Lc St kT d"), ("ED", "Lp Lc St kT f")):
     THEOREMS += [f"Verif.C13.{_ns}.row_{v}" for v in _vars.split()]
@@ -291,6 +293,23 @@ def cubic_invariants(kind, x, P):
     return p_, q_
 
 
+def amplification(kind, x, args):
+    """how much the cancellation inside det = q^2/4 + p^3/27 amplifies rounding errors of the coefficients"""
+    inv = cubic_invariants(kind, x, dict(zip(KINDS[kind][2], args)))
+    if inv is None:
+        return 1.0
+    p_, q_ = inv
+    det = q_ * q_ / 4.0 + p_**3 / 27.0
+    if det == 0 or not math.isfinite(det):
+        return float("inf")
+    amp = (q_ * q_ / 4.0 + abs(p_) ** 3 / 27.0) / abs(det)
+    if det > 0:  # cancellation inside the arguments -q/2 +- sqrt(det) of the cube roots
+        s_ = math.sqrt(det)
+        tmin = min(abs(s_ - 0.5 * q_), abs(-s_ - 0.5 * q_))
+        amp = max(amp, (abs(q_) * 0.5 + s_) / tmin if tmin > 0 else float("inf"))
+    return amp
+
+
 def in_band(kind, x, args, margin=3.0):
     """the documented regularisation band (1e-5 clamps of the Cardano chain rule; |F| = 1 of the trigonometric one),
     widened by `margin`, from the cubic's invariants"""
@@ -345,7 +364,7 @@ INV_REL = 1.0e-3  # through a numerical inversion (least_squares, tol 1e-8): the
 #                    solver's F, whose error (~1e-5 relative) is outside the property
 
 
-def judge(an, num, err, floor, loose=False):
+def judge(an, num, err, floor, loose=False, rel=None):
     """None = agree; 'skip' = numerical derivative did not converge; else text"""
     if not (math.isfinite(num) and math.isfinite(err)):
         return "skip"
@@ -354,7 +373,7 @@ def judge(an, num, err, floor, loose=False):
         return "skip"
     if not math.isfinite(an):
         return f"analytic value {an} is not finite where the numerical derivative is {num}"
-    if abs(an - num) > (INV_REL if loose else ORACLE_REL) * mag + 10 * err:
+    if abs(an - num) > (INV_REL if loose else (rel or ORACLE_REL)) * mag + 10 * err:
         return f"analytic {an!r} vs numerical {num!r} (± {err:.1e})"
     return None
 
@@ -437,7 +456,8 @@ def impl(case):
             vec = np.array([float(case["values"][n]) for n in names], dtype=float)
             J = np.asarray(fit._calculate_jacobian(np.array(vec)))
             a0 = " ".join(names) + " | " + "[" + ";".join(",".join(fl(v) for v in row) for row in J) + "]"
-            Jn, _ = numeric_fit_jacobian(fit, vec)
+            Jn, En = numeric_fit_jacobian(fit, vec)
+            Jn = np.where(En > 1.0e-7 * np.maximum(np.abs(Jn), 1e-300), np.nan, Jn)  # not converged (kink, noise)
             a1 = " ".join(names) + " | " + "[" + ";".join(",".join(fl(v) for v in row) for row in Jn) + "]"
             return [a0, a1]
     except Exception as e:
@@ -586,13 +606,18 @@ def agree(case, i, ia, ma):
                 # on the scale of the largest one
                 a = [dec(ia)] if i != 1 else parse_floats(ia)
                 b = [dec(ma.split(" ")[-1])] if i != 1 else parse_floats(ma.split(" ", 1)[1])
+                if ma.endswith("Error"):
+                    return ia == ma
                 if len(a) != len(b):
                     return False
                 big = max([abs(v) for v in a + b if math.isfinite(v)] + [0.0])
-                return all(close(u, v, 1e-6, 1e-6 * big / 1e-6 * 1e-3 + 1e-6) for u, v in zip(a, b))
+                return all(close(u, v, 1e-6, 1e-3 * big + 1e-6) for u, v in zip(a, b))
+            head, body = ma.split(" ", 1)
+            if ":" in head:  # cubic model: rounding of the coefficients is amplified by the cancellation inside det
+                amp = dec(head.split(":")[1])
+                rel = max(rel, 1.0e-12 * amp) if math.isfinite(amp) else 1.0
             if i == 0:
-                return close(dec(ia), dec(ma), rel)
-            body = ma.split(" ", 1)[1]
+                return close(dec(ia), dec(body), rel)
             if i == 1:
                 a, b = parse_floats(ia), parse_floats(body)
                 return len(a) == len(b) and rows_close(a, b, case["p"], rel)
@@ -640,7 +665,12 @@ def fit_rows_agree(case, i, na, ja, jb):
             for ra, rb in zip(A, B):
                 if len(ra) != len(rb):
                     return False
-                if i == 1 and any(not math.isfinite(v) for v in ra + rb):
+                if i == 1:
+                    keep = [j for j, (u, v) in enumerate(zip(ra, rb)) if math.isfinite(u) and math.isfinite(v)]
+                    sens = max([abs(g[j] * rb[j]) for j in range(len(rb)) if math.isfinite(rb[j])] + [0.0])
+                    for j in keep:
+                        if not close(ra[j], rb[j], rel, 1.0e-4 * sens / max(abs(g[j]), 1e-2)):
+                            return False
                     continue
                 if not rows_close(ra, rb, g, rel, 1.0e-9 if i == 0 else 1.0e-5):
                     return False
@@ -680,7 +710,11 @@ def oracle_(case, ia):
             if in_band(case["kind"], float(case["x"]), case["p"]):
                 case.setdefault("_skipped", []).append("regularised-band")
                 return None
-            return oracle_tree(tree, float(case["x"]), pd, names, parse_floats(ia[1]), dec(ia[2]), case)
+            amp = amplification(case["kind"], float(case["x"]), case["p"])
+            if amp > 1.0e7:
+                case.setdefault("_skipped", []).append("ill-conditioned-cubic")
+                return None
+            return oracle_tree(tree, float(case["x"]), pd, names, parse_floats(ia[1]), dec(ia[2]), case, rel=max(ORACLE_REL, 1.0e-12 * amp))
         if k == "tree":
             names = ia[0].split(" ")
             if sorted(names) != sorted(case["params"].keys()):
@@ -701,7 +735,7 @@ def oracle_(case, ia):
     return None
 
 
-def oracle_tree(tree, x, pd, names, jac, der, case):
+def oracle_tree(tree, x, pd, names, jac, der, case, rel=None):
     skipped = case.setdefault("_skipped", [])
     y0 = spec_eval(tree, x, pd)
     if not math.isfinite(y0):
@@ -719,14 +753,14 @@ def oracle_tree(tree, x, pd, names, jac, der, case):
 
         num, err = richardson(fn, pd[n], step_for(pd[n], 1e-2))
         floor = max(1.0e-9 * abs(y0), 1.0e-3 * sens) / max(abs(pd[n]), 1e-2)
-        v = judge(an, num, err, floor, loose)
+        v = judge(an, num, err, floor, loose, rel)
         if v == "skip":
             skipped.append("jac:" + n.split("/")[-1])
         elif v:
             return f"jacobian[{n}]: at x={x!r} {v}"
     if der is not None:
         num, err = richardson(lambda t: spec_eval(tree, t, pd), x, step_for(x, 1e-3))
-        v = judge(der, num, err, 1.0e-9 * abs(y0) / max(abs(x), 1e-3), loose)
+        v = judge(der, num, err, 1.0e-9 * abs(y0) / max(abs(x), 1e-3), loose, rel)
         if v == "skip":
             skipped.append("der")
         elif v:
@@ -1032,8 +1066,9 @@ def valid_everywhere(t, x, pd, base_ok=False):
             g = lambda a: pd[a if a == "kT" else f"{n}/{a}"]
             if k.startswith("offset"):
                 return True
-            if k in CUBIC and in_band(k, x, [g(a) for a in KINDS[k][2]], margin=10.0) and not base_ok:
-                return False
+            if k in CUBIC and not base_ok:
+                if in_band(k, x, [g(a) for a in KINDS[k][2]], margin=10.0) or amplification(k, x, [g(a) for a in KINDS[k][2]]) > 1.0e4:
+                    return False
             if KINDS[k][1] == "f":
                 if x < 0.04:
                     return False
@@ -1300,7 +1335,7 @@ def extra_coverage(results):
         for s in c.get("_skipped", []):
             skipped[s] = skipped.get(s, 0) + 1
         if c["op"] == "base" and len(r["model"]) > 1 and " " in r["model"][1]:
-            b = r["model"][1].split(" ")[0]
+            b = r["model"][1].split(" ")[0].split(":")[0]
             branches[b] = branches.get(b, 0) + 1
         if c["op"] == "tree":
             s = repr(c["tree"])
